@@ -76,7 +76,14 @@ def make_ref(rng, srcs, tparam):
         if rng.random() < 0.5:
             return {'k': inner, 'c': 3}, (lambda: {'k': ev(), 'c': 3}), f'dict[{kind}]', deps
         return {'k': (inner, inner2)}, (lambda: {'k': (ev(), ev2())}), f'dict[({kind},{kind2})]', deps | deps2
-    c = rng.randrange(6)
+    c = rng.randrange(8)
+    if c == 6:
+        # references that have no value for some source values (division by zero): the failing source assignment raises,
+        # the next valid one must bring the link up to date again
+        return param.rx(10.0) / s.param[pn], (lambda: 10.0 / getattr(s, pn)), 'rx-div', {(i, pn)}
+    if c == 7:
+        h = lambda a: 10.0 / a    # noqa: E731
+        return param.bind(h, s.param[pn]), (lambda: 10.0 / getattr(s, pn)), 'bind-div', {(i, pn)}
     if c == 0:
         return s.param[pn], (lambda: getattr(s, pn)), 'param', {(i, pn)}
     if c == 1:
@@ -95,7 +102,19 @@ def make_ref(rng, srcs, tparam):
     return s.param[pn].rx().rx.pipe(f, s2.param[pn2]), (lambda: getattr(s, pn) - getattr(s2, pn2)), 'rx.pipe', {(i, pn), (j, pn2)}
 
 
+RAISES = ('<reference has no value>',)
+
+
+def safe(ev):
+    try:
+        return ev()
+    except ZeroDivisionError:
+        return RAISES
+
+
 def valid_for(tparam, v):
+    if v is RAISES or (isinstance(v, (list, dict, tuple)) and RAISES in _flat(v)):
+        return False
     if tparam == 'x':
         return isinstance(v, (int, float)) and 0 <= v <= 100
     if tparam == 'y':
@@ -105,6 +124,15 @@ def valid_for(tparam, v):
     if tparam == 'd':
         return isinstance(v, dict)
     return True
+
+
+def _flat(v):
+    if isinstance(v, dict):
+        v = list(v.values())
+    out = []
+    for x in v:
+        out += _flat(x) if isinstance(x, (list, dict, tuple)) and x is not RAISES else [x]
+    return out
 
 
 def run_case(idx, rng, P, rep):
@@ -122,7 +150,7 @@ def run_case(idx, rng, P, rep):
         for tp in ('x', 'y', 'z', 'l', 'd'):
             if rng.random() < 0.3:
                 ref, ev, kind, deps = make_ref(rng, srcs, tp)
-                if valid_for(tp, ev()):
+                if valid_for(tp, safe(ev)):
                     kw[tp] = ref
                     links[ti][tp] = (ev, kind, deps)
                     kinds_used.add(kind)
@@ -152,7 +180,10 @@ def run_case(idx, rng, P, rep):
                 rep.count('mirror_checks')
                 if tp in links[ti]:
                     ev, kind, deps = links[ti][tp]
-                    exp = ev()
+                    exp = safe(ev)
+                    if exp is RAISES or (isinstance(exp, (list, dict)) and RAISES in _flat(exp)):
+                        rep.count('links_without_value')
+                        continue
                     if valid_for(tp, exp):
                         if not same(got, exp):
                             if deps & raised_last:
@@ -196,7 +227,7 @@ def run_case(idx, rng, P, rep):
         if c < 0.45:
             si = rng.randrange(len(srcs))
             pn = rng.choice(['v', 'w'])
-            v = rng.choice([fresh(), fresh(), -5.0, 500.0])
+            v = rng.choice([fresh(), fresh(), fresh(), -5.0, 500.0, 0.0])
             steps.append('source-update')
             trace.append(('source-update', si, pn, v))
             rep.count('source_updates')
@@ -205,15 +236,22 @@ def run_case(idx, rng, P, rep):
                 setattr(srcs[si], pn, v)
                 if not unchanged:
                     raised_last.discard((si, pn))
-            except ValueError:
-                rep.count('source_update_raised_for_invalid_target_value')
+            except (ValueError, ZeroDivisionError) as e:
+                rep.count('source_update_raised_for_invalid_target_value' if isinstance(e, ValueError) else 'source_update_raised_in_reference')
                 raised_last.add((si, pn))
+                # the failure must have a cause: some live link fed by this source has no value / an invalid value now
+                cause = any((si, pn) in m for m in murky) or any(
+                    (si, pn) in deps and not valid_for(tp_, safe(ev_))
+                    for lk in links for tp_, (ev_, _k, deps) in lk.items())
+                if not cause:
+                    viol('source-update-raised-without-cause', f'source{si}.{pn} = {v!r} raised {type(e).__name__}: {e} although every reference '
+                         f'fed by it evaluates to a value that is valid for its linked parameter')
             if flags['pending']:
                 flags['relink_then_update'] = True
         elif c < 0.62:
             tp = rng.choice(['x', 'y', 'z', 'l', 'd'])
             ref, ev, kind, deps = make_ref(rng, srcs, tp)
-            if not valid_for(tp, ev()):
+            if not valid_for(tp, safe(ev)):
                 continue
             steps.append('relink' if tp in links[ti] else 'link')
             trace.append((steps[-1], ti, tp, kind))
@@ -251,7 +289,7 @@ def run_case(idx, rng, P, rep):
             had_plain = tp in plain[ti]
             if use_ref:
                 ref, ev, kind, deps = make_ref(rng, srcs, tp)
-                if not valid_for(tp, ev()):
+                if not valid_for(tp, safe(ev)):
                     continue
                 val = ref
             else:
@@ -276,12 +314,12 @@ def run_case(idx, rng, P, rep):
                     try:
                         setattr(srcs[si], pn, fresh())
                         raised_last.discard((si, pn))
-                    except ValueError:
+                    except (ValueError, ZeroDivisionError):
                         raised_last.add((si, pn))
             finally:
                 try:
                     cm.__exit__(None, None, None)
-                except ValueError:
+                except (ValueError, ZeroDivisionError):
                     # restoring a link whose reference currently resolves to an invalid value: outcome not specified
                     ok_exit = False
                     rep.count('update_context_restore_raised')
